@@ -90,13 +90,13 @@ theorem arr_set_sim (d : Decl) (a : Arr) (h : ArrInv d a) (i : Int) (x : Val) :
   · have hn : ¬ arraySetAllowed d a.hi (absArr a) i x := by
       intro hh; have := hh.2.1; omega
     simp only [h1, h2, if_true, if_false, hn, R.obs]; exact ⟨trivial, h⟩
-  by_cases h3 : x.ty ≠ a.base
+  by_cases h3 : typeMismatch x a.base
   · have hn : ¬ arraySetAllowed d a.hi (absArr a) i x := by
-      intro hh; have := hh.2.2.1; rw [← h.base] at this; exact h3 this
+      intro hh; have := hh.2.2.1; rw [← h.base] at this; exact (typeMismatch_iff _ _).mp h3 this
     simp only [h1, h2, h3, if_true, if_false, hn, R.obs, ne_eq, not_false_eq_true]; exact ⟨trivial, h⟩
   have h1' : a.lo ≤ i := by omega
   have h2' : i ≤ a.hi := by omega
-  have h3' : x.ty = a.base := by simpa using h3
+  have h3' : x.ty = a.base := Classical.not_not.mp (fun hne => h3 ((typeMismatch_iff _ _).mpr hne))
   have huniq := arr_unique_iff d a h i x h1'
   have hk : (i - a.lo).toNat < a.cells.length := by rw [h.len]; omega
   have hidx : pyIdx a.cells.length (i - a.lo) = some (i - a.lo).toNat := pyIdx_of_nonneg (by omega) hk
@@ -280,12 +280,12 @@ theorem lst_set_sim (d : Decl) (l : Lst) (h : LstInv d l) (i : Int) (x : Val) :
       intro hh; exact (hfull.mp h2.2) (hh.2.2.1 h2.1)
     rw [if_pos h2, if_neg hn]; exact ⟨rfl, h⟩
   rw [if_neg h2]
-  by_cases h3 : x.ty ≠ l.base
+  by_cases h3 : typeMismatch x l.base
   · have hn : ¬ listSetAllowed d l.cells i x := by
-      intro hh; have := hh.2.2.2.1; rw [← h.base] at this; exact h3 this
+      intro hh; have := hh.2.2.2.1; rw [← h.base] at this; exact (typeMismatch_iff _ _).mp h3 this
     rw [if_pos h3, if_neg hn]; exact ⟨rfl, h⟩
   rw [if_neg h3]
-  have h3' : x.ty = l.base := by simpa using h3
+  have h3' : x.ty = l.base := Classical.not_not.mp (fun hne => h3 ((typeMismatch_iff _ _).mpr hne))
   have huniq := lst_unique_iff l.cells i x h1a
   by_cases h4 : (l.unique && (pySliceTo l.cells (i - 1) ++ pySliceFrom l.cells i).contains x) = true
   · have hn : ¬ listSetAllowed d l.cells i x := by
@@ -379,11 +379,11 @@ theorem bag_add_sim (d : Decl) (b : Bag) (h : BagInv d b) (x : Val) :
   | none =>
     have hdn : d.hi = none := by rw [← hhi, hb]
     simp only
-    by_cases h3 : x.ty ≠ b.base
+    by_cases h3 : typeMismatch x b.base
     · have hn : ¬ bagAddAllowed d (sortL b.cells) x := by
-        intro hh; have := hh.1; rw [← h.base] at this; exact h3 this
+        intro hh; have := hh.1; rw [← h.base] at this; exact (typeMismatch_iff _ _).mp h3 this
       rw [if_pos h3, if_neg hn]; exact ⟨rfl, h⟩
-    · have h3' : x.ty = b.base := by simpa using h3
+    · have h3' : x.ty = b.base := Classical.not_not.mp (fun hne => h3 ((typeMismatch_iff _ _).mpr hne))
       have hy : bagAddAllowed d (sortL b.cells) x := ⟨by rw [← h.base]; exact h3', withinUpper_none hdn _⟩
       rw [if_neg h3, if_pos hy]
       exact ⟨by simp [sortL_append_singleton, R.obs], { h with hi := hdn.symm, upper := withinUpper_none hdn _ }⟩
@@ -406,11 +406,11 @@ theorem bag_add_sim (d : Decl) (b : Bag) (h : BagInv d b) (x : Val) :
     have hlt : ((b.cells.length + 1 : Nat) : Int) ≤ bnd := by
       have : ¬ (b.cells.length : Int) = bnd := fun hh => h2 (hft.mpr hh)
       omega
-    by_cases h3 : x.ty ≠ b.base
+    by_cases h3 : typeMismatch x b.base
     · have hn : ¬ bagAddAllowed d (sortL b.cells) x := by
-        intro hh; have := hh.1; rw [← h.base] at this; exact h3 this
+        intro hh; have := hh.1; rw [← h.base] at this; exact (typeMismatch_iff _ _).mp h3 this
       rw [if_pos h3, if_neg hn]; exact ⟨rfl, h⟩
-    · have h3' : x.ty = b.base := by simpa using h3
+    · have h3' : x.ty = b.base := Classical.not_not.mp (fun hne => h3 ((typeMismatch_iff _ _).mpr hne))
       have hy : bagAddAllowed d (sortL b.cells) x :=
         ⟨by rw [← h.base]; exact h3', (withinUpper_some hds _).mpr (by rw [length_sortL]; exact hlt)⟩
       rw [if_neg h3, if_pos hy]
@@ -469,7 +469,7 @@ theorem nodup_pySetAdd (c : List Val) (x : Val) (hc : c.Nodup) : (pySetAdd c x).
 theorem length_pySetAdd_le (c : List Val) (x : Val) : (pySetAdd c x).length ≤ c.length + 1 := by
   unfold pySetAdd; split <;> simp
 
-theorem typed_pySetAdd (c : List Val) (x : Val) (base : Nat) (hc : ∀ y ∈ c, y.ty = base) (hx : x.ty = base) :
+theorem typed_pySetAdd (c : List Val) (x : Val) (base : Ty) (hc : ∀ y ∈ c, y.ty = base) (hx : x.ty = base) :
     ∀ y ∈ pySetAdd c x, y.ty = base := by
   unfold pySetAdd
   intro y hy
@@ -489,11 +489,11 @@ theorem set_add_sim (d : Decl) (s : PSet) (h : SetInv d s) (x : Val) :
   | none =>
     have hdn : d.hi = none := by rw [← hhi, hb]
     simp only
-    by_cases h3 : x.ty ≠ s.base
+    by_cases h3 : typeMismatch x s.base
     · have hn : ¬ setAddAllowed d (sortL s.cells) x := by
-        intro hh; have := hh.1; rw [← h.base] at this; exact h3 this
+        intro hh; have := hh.1; rw [← h.base] at this; exact (typeMismatch_iff _ _).mp h3 this
       rw [if_pos h3, if_neg hn]; exact ⟨rfl, h⟩
-    · have h3' : x.ty = s.base := by simpa using h3
+    · have h3' : x.ty = s.base := Classical.not_not.mp (fun hne => h3 ((typeMismatch_iff _ _).mpr hne))
       have hy : setAddAllowed d (sortL s.cells) x :=
         ⟨by rw [← h.base]; exact h3', Or.inr (withinUpper_none hdn _)⟩
       rw [if_neg h3, if_pos hy]
@@ -528,11 +528,11 @@ theorem set_add_sim (d : Decl) (s : PSet) (h : SetInv d s) (x : Val) :
     have hlt : ((s.cells.length + 1 : Nat) : Int) ≤ bnd := by
       have : ¬ (s.cells.length : Int) = bnd := fun hh => h2 (hft.mpr hh)
       omega
-    by_cases h3 : x.ty ≠ s.base
+    by_cases h3 : typeMismatch x s.base
     · have hn : ¬ setAddAllowed d (sortL s.cells) x := by
-        intro hh; have := hh.1; rw [← h.base] at this; exact h3 this
+        intro hh; have := hh.1; rw [← h.base] at this; exact (typeMismatch_iff _ _).mp h3 this
       rw [if_pos h3, if_neg hn]; exact ⟨rfl, h⟩
-    · have h3' : x.ty = s.base := by simpa using h3
+    · have h3' : x.ty = s.base := Classical.not_not.mp (fun hne => h3 ((typeMismatch_iff _ _).mpr hne))
       have hy : setAddAllowed d (sortL s.cells) x :=
         ⟨by rw [← h.base]; exact h3', Or.inr ((withinUpper_some hds _).mpr (by rw [length_sortL]; exact hlt))⟩
       rw [if_neg h3, if_pos hy]
